@@ -1,6 +1,7 @@
 package main
 
 import (
+	"fmt"
 	"math"
 	"math/big"
 	"time"
@@ -165,6 +166,39 @@ func genC18(c *ctx) {
 		addProhibits(cv, m.Acc{Kind: "AFlyio", Org: &org, Action: 1, Now: t}, "confine/wrong-access", false)
 		addProhibits(cv, m.Acc{Kind: "ABare", Valid: true, Now: t}, "confine/wrong-access", false)
 		addProhibits(cv, m.Acc{Kind: "AActionOnly", Action: 3, Now: t}, "confine/wrong-access", false)
+	}
+	// 1b. a request object is evaluated more than once (one per caveat, per token, per retry) and applications build the next
+	// request by editing the previous one: every evaluation must look at the identities the object holds NOW
+	for _, cv := range confines {
+		for k := 0; k < reps/3+1; k++ {
+			a1 := mkDR(r, 1+r.Intn(2), 1+r.Intn(2), 1+r.Intn(2), "rel", 60)
+			a2 := mkDR(r, len(a1.Flyio), len(a1.Google), len(a1.GitHub), "rel", 60) // same number of identities per provider
+			obj := a1.Go().(*auth.DischargeRequest)
+			cv.Go().Prohibits(obj)
+			cv.Go().Prohibits(obj)
+			fresh := a2.Go().(*auth.DischargeRequest)
+			if r.Bool() {
+				obj.Flyio, obj.Google, obj.GitHub = fresh.Flyio, fresh.Google, fresh.GitHub // slices replaced
+			} else {
+				copy(obj.Flyio, fresh.Flyio) // edited in place
+				copy(obj.Google, fresh.Google)
+				copy(obj.GitHub, fresh.GitHub)
+			}
+			obj.Expiry = fresh.Expiry
+			err := cv.Go().Prohibits(obj)
+			code := m.ErrCode(err)
+			oracle := ""
+			if want := m.ErrCode(cv.Go().Prohibits(fresh)); want != code {
+				oracle = fmt.Sprintf("a request object evaluated again after its identities were changed answers code %d; a fresh object with the same identities answers %d", code, want)
+			}
+			st.Add(&cs.Case{
+				Coq:        coqw.App("KProhibits", cv.Coq(), a2.Coq(), coqw.N(code)),
+				Desc:       map[string]any{"op": "Prohibits on a re-used request object", "caveat": cv.Coq(), "access_before": a1.Coq(), "access": a2.Coq(), "impl_err_code": code, "impl_err": errStr(err)},
+				Class:      "confine-reused-request/" + cv.Kind,
+				Nontrivial: true,
+				OracleFail: oracle,
+			})
+		}
 	}
 	// 2. lifetime limits at their boundaries
 	for _, mv := range mvBoundaries {
